@@ -24,4 +24,26 @@ PROPS = {
             "trichotomy assumes int/uint->float conversions never produce NaN (FloatOps.ConvNoNaN)",
         ],
     },
+    "C09": {
+        "lean": ["UgoVerif.Props.C09"],
+        "gen": ["AbortOps.lean"],
+        "streams": ["sched"],
+        "required_theorems": ["abort_after_reset_not_lost", "abort_exits_root_loop", "abort_exits_child_loop",
+                              "invoke_after_abort_returns", "C09_partial", "abort_idempotent", "reset_allows_rerun",
+                              "C09_full_false", "lost_at_invoke_window", "lost_at_late_acquire", "lost_at_eval_start",
+                              "eval_covered", "shape_VM_Run", "shape_VM_Abort", "shape_VM_loop", "shape_Invoker_Invoke",
+                              "shape_vmPool_abort", "shape_vmPool__acquire", "shape_vmPool__release", "shape_Eval_run",
+                              "shape_executeScript"],
+        "partial": ["C09_partial", "abort_after_reset_not_lost"],
+        "trusted": [
+            "hand model Model/Conc.lean (interleaving semantics at sync-point granularity) tied to the source by the shape_* facts over the regenerated Gen/AbortOps.lean and by stream `sched` (every schedule forced on the real code through hook H2)",
+            "harness scheduler (harness/cmd/corr/sched.go): parks goroutines at verifSync points; goroutine identity via runtime.Stack",
+        ],
+        "assumptions": [
+            "Go atomics and mutexes are sequentially consistent; scheduler fairness, timers and goroutine start-up belong to the Go runtime",
+            "between two consecutive sync points a thread performs at most one access to a shared variable besides lock/unlock, so interleavings at sync-point granularity cover the finer ones",
+            "scripts and callbacks are abstracted to linear instruction / Invoker-operation streams (every execution of a branching program is an execution of the stream along its path); child VMs do not start callbacks of their own (nesting depth 1); one runner goroutine and one aborting goroutine",
+            "a Go callback that never calls back into the VM and never checks Aborted() is outside the claim (time.sleep polls Aborted() every 10 ms)",
+        ],
+    },
 }
